@@ -71,6 +71,15 @@ package nsqd
 //@   ensures[touches-no-metadata-or-queue-file] gfsOpens == old(gfsOpens) && gfsWrites == old(gfsWrites) && gfsRenames == old(gfsRenames) && dqCalls == old(dqCalls)
 //@   ensures[reads-only-the-root-ca-file] gReads != old(gReads) ==> gReadName == opts.TLSRootCAFile
 //@   ensures[empty-registry] result1 == nil ==> result0.topicMap != nil && len(result0.topicMap) == 0
+//   (round 5, area I) the call is recorded for the start-up contract of apps/nsqd (program.Init: options resolved BEFORE New)
+//   (New has no frame: the self-assignments carry the three records across the call; `keeps` CHECKS that New's body leaves them alone)
+//@   keeps r5IResolves, r5IResolvedOpts, r5IResolvedFlags
+//@   onreturn r5IResolves := r5IResolves
+//@   onreturn r5IResolvedOpts := r5IResolvedOpts
+//@   onreturn r5IResolvedFlags := r5IResolvedFlags
+//@   onreturn r5INews := r5INews + 1
+//@   onreturn r5INewOpts := opts
+//@   onreturn r5INewSawResolves := r5IResolves
 //@   loop 0
 //@     invariant[locked] n != nil && n.dl != nil && n.dl.f == gDirOpenFile && n.dl.f != nil && gDirOpenErr == nil && gFlockErr == nil
 //@     invariant[registry] n.topicMap != nil && len(n.topicMap) == 0
